@@ -515,6 +515,8 @@ def run_crash(ctx, runs, steps, profile="crash", tag="crash", extra=None):
             script = j
     obs = rec.get("obs", {})
     shown = obs.get("error") or "contents that are no commit point between the last durable and the last requested commit"
+    if obs.get("msg"):
+        shown += f" ({obs['msg'][:300]})"
     if "integ" in rec and rec.get("integ") != {"ok": True}:
         shown += f"; check_integrity() after recovery = {rec.get('integ')}"
     what = (f"crash at backend operation {rec['at']} (run {rec['run']}, case {json.dumps(rec['case'])}, depth {rec['depth']}): "
@@ -949,8 +951,45 @@ def check_C09(ctx):
                      "MultimapValue::len() checked, commit/abort/reopen in between, judged by TLC against Kv.tla")
 
 
+def run_paths(ctx, num, depth=22):
+    """Specification -> implementation: behaviours TLC generates from Kv.tla (simulation mode) executed on the real code"""
+    out = os.path.join(ctx.work, "paths.txt")
+    metadir = os.path.join(ctx.work, "meta-paths")
+    cmd = ["timeout", "1800", "tlc", "-workers", "1", "-simulate", f"num={num}", "-depth", str(depth + 1), "-seed", str(ctx.seed), "-metadir", metadir,
+           "-cleanup", "-noGenerateSpecTE", "-config", "Gen_KvPaths.cfg", "MC_KvPaths.tla"]
+    p = sh(cmd, cwd=SPEC, timeout=1900, check=False)
+    open(out, "w").write(p.stdout)
+    if '"PATH"' not in p.stdout:
+        raise ToolError(f"TLC generated no behaviours:\n{(p.stdout + p.stderr)[-2000:]}")
+    fail = os.path.join(ctx.work, "paths_fail.json")
+    q = sh([bin_path("paths"), "--in", out, "--seed", str(ctx.seed), "--fail-out", fail], timeout=3600, check=False)
+    if q.returncode in (-6, 134, -11, 139):
+        what = "replaying a behaviour generated from Kv.tla kills the process inside redb: " + " | ".join([l for l in q.stderr.splitlines() if "panicked" in l][-3:])[:400]
+        payload = {"property": ctx.prop, "kind": "paths", "seed": ctx.seed, "num": num, "tier": ctx.tier, "what": what, "signature": "paths:abort"}
+        raise Violation(ctx.prop, save_replay(ctx.prop, payload), what, "paths:abort")
+    if q.returncode != 0:
+        raise ToolError(f"paths failed ({q.returncode}): {q.stderr[-2000:]}")
+    stats = json.loads(q.stdout.strip().splitlines()[-1])
+    log(f"paths: {stats['behaviours']} behaviours generated by TLC, {stats['calls']} calls replayed ({stats['error_results_specified']} with a specified "
+        f"error), {stats['commits']} commits with catalog check")
+    ctx.cov["evaluations"] += stats["calls"]
+    ctx.cov["distinct_nontrivial"] += stats["behaviours"]
+    ctx.notes["spec_to_impl_paths"] = {k: v for k, v in stats.items() if k not in ("what",)}
+    if stats["failed"]:
+        f = json.load(open(fail))
+        what = f"behaviour {f['path']} generated from Kv.tla, replayed on the code: {f['what']}"[:900]
+        sig = "paths:" + hashlib.sha256(json.dumps(f["behaviour"], sort_keys=True).encode()).hexdigest()[:16]
+        payload = {"property": ctx.prop, "kind": "paths", "seed": ctx.seed, "num": num, "tier": ctx.tier, "cfg": f["cfg"], "behaviour": f["behaviour"],
+                   "calls": f["calls"][-30:], "what": what, "signature": sig}
+        raise Violation(ctx.prop, save_replay(ctx.prop, payload), what, sig)
+    if stats["commits"] < 200:
+        raise ToolError(f"vacuity: too few commits in the generated behaviours: {stats}")
+    return stats
+
+
 def check_C17(ctx):
     build()
+    run_paths(ctx, tiered(ctx, 300, 3000))
     runs, steps = tiered(ctx, (40, 400), (400, 1200))
     run_kv_walk(ctx, "catalog", runs, steps, page_sizes="512,4096", caches="1048576,0")
     ctx.cov["distinct_nontrivial"] += sum(v for k, v in ctx.notes.get("event_kinds", {}).items() if k in ("open", "rename", "delete", "list", "ropen", "close"))
@@ -1169,6 +1208,7 @@ def check_C06(ctx):
 def check_C07(ctx):
     build()
     pager_design(ctx)
+    run_paths(ctx, tiered(ctx, 300, 3000))
     run_kv_walk(ctx, "savepoint", tiered(ctx, 40, 400), tiered(ctx, 500, 1500), page_sizes="512,1024,4096", caches="1048576,0")
     run_kv_walk(ctx, "pages", tiered(ctx, 10, 100), 600, page_sizes="512", tag="pages")
     run_crash(ctx, tiered(ctx, 6, 40), 120, profile="crashsp", tag="crash-savepoints", extra=["--second-every", str(tiered(ctx, 17, 5))])
@@ -1625,7 +1665,7 @@ def main(argv):
                 still = replay_crash_case(ctx, replay)
             elif payload.get("kind") == "sched":
                 still = replay_sched(ctx, payload)
-            elif payload.get("kind", "").startswith("contract") or payload.get("kind") in ("keys", "forest", "commitio", "conc", "cache"):
+            elif payload.get("kind", "").startswith("contract") or payload.get("kind") in ("keys", "forest", "commitio", "conc", "cache", "paths"):
                 ctx.seed = payload.get("seed", ctx.seed)
                 ctx.tier = payload.get("tier", ctx.tier)
                 try:
